@@ -882,6 +882,10 @@ def discharge(ctx, body, p, ev, kind):
                             op = {"Gt": "Lt", "Ge": "Le"}[op]
                         if l == a0 and ((b == LEN and length_of(r) is not None and length_of(r) == c0) or (b != LEN and r == strip_refs(b))):
                             return True
+                        # a + k < b (k >= 0; the addition is its own overflow site) gives a < b
+                        if isinstance(l, tuple) and l and l[0] == "binop" and l[1] == "Add" and strip_refs(l[2]) == a0 and (const_int(l[3]) if const_int(l[3]) is not None else -1) >= 0 \
+                                and ((b == LEN and length_of(r) is not None and length_of(r) == c0) or (b != LEN and r == strip_refs(b))):
+                            return True
                         # a <= x by the loop's invariant and x < b on this path
                         if ((b == LEN and length_of(r) is not None and length_of(r) == c0) or (b != LEN and r == strip_refs(b))) and ctx is not None and never_ahead(ctx, body, a0, l):
                             return True
